@@ -294,6 +294,9 @@ pub enum Op {
     Spawn { a: usize, spec: SpawnSpec, h: usize },
     Send { h: usize, m: usize, script: Vec<Act> },
     Call { h: usize, m: usize, script: Vec<Act> },
+    /// several `Sender::send` futures created first and only then driven together (`join_all`): the submission point
+    /// of each is its first poll, not its creation (only on sender handles)
+    SendBatch { h: usize, msgs: Vec<(usize, Vec<Act>)> },
     /// `WeakSender::try_force_send`: upgrade + forced submission, never waits (only on weak-sender handles)
     ForceSend { h: usize, m: usize, script: Vec<Act> },
     /// begin a call, drop its future if it has not returned after `after` ms
@@ -550,6 +553,20 @@ async fn exec_op(c: usize, op: Op) {
                     ret(o, res_str(&r));
                 }
                 _ => {}
+            }
+            put(h, hb);
+        }
+        Op::SendBatch { h, msgs } => {
+            let Some(hb) = take(h) else { return };
+            if let HandleBox::SenderNote(_, s) = &hb {
+                // all futures exist before any of them is polled
+                let futs: Vec<_> = msgs.into_iter().map(|(m, script)| (m, s.send(Note { m, script }))).collect();
+                let wrapped = futs.into_iter().map(|(m, f)| async move {
+                    let o = begin(c, h, "send", Some(m));
+                    let r = f.await;
+                    ret(o, res_str(&r));
+                });
+                futures::future::join_all(wrapped).await;
             }
             put(h, hb);
         }
